@@ -52,7 +52,9 @@ cpdef int date_to_idx_fast(
     diff_seconds = _total_seconds(date - start_date)
 
     # Integer division for index
-    idx = <int>(diff_seconds / <double>resolution)
+    # floor, not truncation: an instant shortly before the start lies in slot -1
+    # (outside the table), not in slot 0
+    idx = <int>floor(diff_seconds / <double>resolution)
 
     if force_into_project:
         if idx < 0:
